@@ -67,7 +67,7 @@ PROPS = {
         + fns([F + "store_object"], r"post/(result|frame-self)"),
         "lemmas": ["C01/store-then-retrieve"],
         "lemma_select": [r"lemma/C02/.*"],
-        "special": ["homcheck"],
+        "special": ["homcheck", "crosscheck"],
     },
     "C03": {
         "fns": fns([F + "_check_string", F + "_store_hashstore_refs_files", F + "tag_object",
@@ -198,7 +198,7 @@ PROPS = {
         "extra": [r"path/.*", r"yaml/.*", r"refs/line-is-wsfree"],
         "lemmas": ["C11/store-then-retrieve"],
         "lemma_select": [r"lemma/C11/store/path-is-published-address"],
-        "special": ["shard"],
+        "special": ["shard", "crosscheck"],
     },
     "C16": {
         "fns": fns(SYNC, ANY) + fns([F + "store_object", F + "store_metadata",
@@ -220,6 +220,7 @@ PROPS = {
                                        "delete_metadata", "retrieve_object", "retrieve_metadata",
                                        "get_hex_digest")],
         "lemma_select": [r"lemma/C17/.*"],
+        "special": ["crosscheck"],
     },
     "C18": {
         "fns": fns([F + "_check_string"], ANY) + fns(PATHS + [F + "_update_refs_file",
